@@ -18,6 +18,8 @@ func init() {
 	zzsv.Register("ZZ_C02_ConstantConditions", ZZ_C02_ConstantConditions)
 	zzsv.Register("ZZ_C02_SameIterable", ZZ_C02_SameIterable)
 	zzsv.Register("ZZ_C02_StatementValues", ZZ_C02_StatementValues)
+	zzsv.Register("ZZ_C02_SwitchSubjects", ZZ_C02_SwitchSubjects)
+	zzsv.Register("ZZ_C02_TailConditionals", ZZ_C02_TailConditionals)
 }
 
 // zzGen generates control-flow programs.
@@ -485,4 +487,81 @@ func ZZ_C02_StatementValues(sv *zzsv.T) {
 	} else {
 		sv.Assert("C02.stmt.visits", len(trace) >= want)
 	}
+}
+
+// ZZ_C02_SwitchSubjects: the subject of a switch need not be a string:
+// integers, floats and booleans select the arm whose literal or expression
+// equals them (same type), and a regexp arm is tried on the subject's
+// printed form; the first matching arm runs, otherwise the default,
+// otherwise none.
+func ZZ_C02_SwitchSubjects(sv *zzsv.T) {
+	type subj struct {
+		v       zv
+		printed string
+	}
+	subjects := []subj{
+		{zInt(404), "404"}, {zInt(7), "7"}, {zInt(-40), "-40"}, {zFloat(4.5), "4.5"}, {zFloat(40), "40"},
+		{zBool(true), "true"}, {zBool(false), "false"}, {zStr("404"), "404"}, {zStr("x"), "x"},
+	}
+	s := subjects[sv.Choice("subject", len(subjects))]
+	k := sv.Int64("K")
+	sv.Assume(k >= 0 && k <= 500)
+	hasDefault := sv.Choice("default", 2) == 1
+	src := "switch (s) {\n case \"x\" { t(1); }\n case K, 7 { t(2); }\n case /^4/ { t(3); }\n case /true|^-/ { t(4); }\n case 4.5, false { t(5); }\n"
+	if hasDefault {
+		src += " default { t(6); }\n"
+	}
+	src += "}\nreturn 9;"
+	sv.Note("script", src)
+	var trace []object.Object
+	e, err := zzPrepare(sv, src, map[string]zv{"s": s.v, "K": zInt(k)}, []string{"s", "K"}, sv.Choice("noopt", 2) == 1, &trace)
+	sv.Assume(err == nil)
+	out, rerr := e.Execute(nil)
+	zzDescribe(sv, "result", out, rerr)
+	sv.Assert("C02.subjects.noerror", rerr == nil && zzSame(sv, out, zInt(9)))
+	want := int64(0)
+	switch {
+	case s.v.t == tString && s.v.s == "x":
+		want = 1
+	case s.v.t == tInt && (s.v.i == k || s.v.i == 7):
+		want = 2
+	case s.printed[0] == '4':
+		want = 3
+	case s.printed == "true" || s.printed[0] == '-':
+		want = 4
+	case (s.v.t == tFloat && s.v.f == 4.5) || (s.v.t == tBool && !s.v.b):
+		want = 5
+	case hasDefault:
+		want = 6
+	}
+	if want == 0 {
+		sv.Assert("C02.subjects.none", len(trace) == 0)
+	} else {
+		sv.Assert("C02.subjects.one", len(trace) == 1)
+		if len(trace) == 1 {
+			sv.Assert("C02.subjects.arm", zzSame(sv, trace[0], zInt(want)))
+		}
+	}
+}
+
+// ZZ_C02_TailConditionals: conditionals as the last statement of a loop
+// body, of an if-arm, of a switch arm and of a function body, after
+// statements made of constants: the statements that run, in order, are the
+// reference interpreter's.
+func ZZ_C02_TailConditionals(sv *zzsv.T) {
+	g := newGen(sv, 1)
+	g.small = true
+	p := zzTailProgram(sv, g)
+	src := p.text()
+	sv.Note("script", src)
+	var trace []object.Object
+	e, err := zzPrepare(sv, src, g.vars, g.order, sv.Choice("noopt", 2) == 1, &trace)
+	sv.Assert("C02.tail.prepare", err == nil)
+	if err != nil {
+		return
+	}
+	out, rerr := e.Execute(nil)
+	ref, want := zzRunRef(sv, p, g.vars, nil)
+	zzDescribe(sv, "result", out, rerr)
+	zzCompareRun(sv, "C02.tail", e, out, rerr, trace, ref, want, []string{"x", "w1"})
 }
